@@ -923,7 +923,7 @@ def build_func(u):
 # =====================================================================================================================================
 # variant `expr`  ->  C05 / C06: the EXPRESSION API builds the tree its methods name: every operator gets exactly the operands given
 # =====================================================================================================================================
-PE = ["C05", "C06"]
+PE = ["C05", "C06", "C08"]
 EXPR_TRAITS = r"""
 pub trait IntoIden: Sized { spec fn sp_iden(self) -> DynIden; fn into_iden(self) -> (r: DynIden) ensures r == self.sp_iden(); }
 pub trait IntoColumnRef: Sized { spec fn sp_column_ref(self) -> ColumnRef; fn into_column_ref(self) -> (r: ColumnRef) ensures r == self.sp_column_ref(); }
